@@ -2,11 +2,20 @@
     Proved: no panic, for every source text, every file map (imports included), every fuel; every successful
     sub-parse consumes at least one token, so no loop of the parser can spin without progress.
     Not proved as a theorem: that a fuel linear in the number of tokens is never exhausted (the model runs on fuel
-    supplied by the driver; an exhausted fuel would show as "hang" in the parse stream), and that every documented
-    form is accepted (valid generated programs in the parse stream). *)
+    supplied by the driver; an exhausted fuel would show as "hang" in the parse stream).  "Every documented form is
+    accepted": for EXPRESSIONS this is C12_every_expression_form_is_accepted (Proofs/ParseRender.v): every expression tree
+    the grammar can express -- literals, variables, lists, records, grouping, unary and binary operators, calls, indexing,
+    nested in one another to any depth -- is accepted, with enough fuel, and parsed to that very tree; for statements it is
+    covered by the parse stream (valid generated programs and every truncation of the documented statement forms). *)
 From Pakhi Require Import Base Float64 Syntax Tables Lexer Parser.
-From Pakhi.Proofs Require Import ParseTotal.
+From Pakhi.Proofs Require Import ParseTotal ParseRender.
 Local Open Scope nat_scope.
+
+Theorem C12_every_expression_form_is_accepted : forall e rest prev last mods, shape_ok e = true -> rest <> [] -> stop 0 (t_kind (hd last rest)) = true ->
+  exists n e' t', expression n (mkPs (render (paren 0 e) ++ rest) prev last mods) = Ok (e', mkPs rest (Some t') last mods) /\
+                  ungroup (erase e') = ungroup (erase e).
+Proof. exact every_tree_reads_back. Qed.
+Print Assumptions C12_every_expression_form_is_accepted.
 
 Theorem C12_lex_and_parse_never_panic : forall fs cwd main_path fuel src,
   main_path <> [] -> last main_path c_slash <> c_slash ->
